@@ -89,6 +89,9 @@ func boundsRun(c *Ctx, entries []*ssa.Function, hooks *bounds.Hooks) int {
 			if lc, ok := entryLoopCap[core.FuncName(fn)]; ok {
 				ecfg.LoopEntryCap = lc
 			}
+			if rc, ok := entryRetCap[core.FuncName(fn)]; ok && rc > ecfg.RetCap {
+				ecfg.RetCap = rc
+			}
 			if ks := os.Getenv("RTPCHECK_LOOPCAP"); ks != "" {
 				fmt.Sscan(ks, &ecfg.LoopEntryCap)
 			}
@@ -339,6 +342,10 @@ var entryK = map[string]int{"codecs.(*AV1Payloader).Payload": 16}
 // entryLoopCap: entries whose loops are analysed from a coarser entry state (bounds.Config.LoopEntryCap): the
 // fragment loop of the AV1 helper is entered on some sixty paths and splits four ways itself; nothing in its
 // body depends on which of those paths was taken.
+// entryRetCap: entries in which the outcomes of small helpers (a two-way clamp, the three returns of a size
+// computation) must stay apart after the call: merged, "r = min(a, b)" is only "r <= a, r <= b".
+var entryRetCap = map[string]int{"codecs.(*AV1Payloader).appendOBUPayload": 16}
+
 var entryLoopCap = map[string]int{"codecs.(*AV1Payloader).appendOBUPayload": 4}
 
 // boundsFor runs the BOUNDS engine over the given entry points with the property's contracts.
